@@ -28,7 +28,38 @@ def conv_order(o):
     raise ValueError(o)
 
 
+BASE_INFO = {}
+
+
 def build(spec):
+    """the lattice of spec, with the lattice-transforming method of spec['transform'] applied"""
+    lat = build_base(spec)
+    tr = spec.get('transform')
+    if not tr:
+        return lat
+    # state before the transform (input of the model of the transform)
+    BASE_INFO.clear()
+    BASE_INFO.update({'Ls': [int(x) for x in lat.Ls], 'N_sites': int(lat.N_sites), 'order': tolist(lat.order)})
+    reg = getattr(lat, 'regular_lattice', None)
+    if reg is not None:
+        BASE_INFO.update({'reg_N_cells': int(reg.N_cells), 'reg_order': tolist(reg.order)})
+    if tr['op'] == 'enlarge':
+        lat.enlarge_mps_unit_cell(tr['factor'])       # in place
+        return lat
+    if tr['op'] == 'segment':
+        if tr.get('enlarge') is not None:
+            return lat.extract_segment(enlarge=tr['enlarge'])
+        return lat.extract_segment(tr['first'], tr['last'])
+    raise ValueError(tr)
+
+
+def species_sites(n):
+    """distinguishable sites: species k has local dimension k + 2"""
+    from tenpy.networks import site as tsite
+    return [tsite.SpinSite(S=0.5 * (k + 1), conserve=None) for k in range(n)]
+
+
+def build_base(spec, simple_only=False):
     from tenpy.models import lattice
     from tenpy.networks import site as tsite
     cls = spec['cls']
@@ -56,10 +87,10 @@ def build(spec):
         raise ValueError(cls)
     if spec.get('custom_perm') is not None and not (wrap and wrap['kind'] == 'multi'):
         lat.order = lat.order[np.array(spec['custom_perm'], dtype=np.intp)]
-    if wrap is None:
+    if wrap is None or simple_only:
         return lat
     if wrap['kind'] == 'multi':
-        ms = lattice.MultiSpeciesLattice(lat, [None] * wrap['n_species'])
+        ms = lattice.MultiSpeciesLattice(lat, species_sites(wrap['n_species']), wrap.get('names'))
         ms.order = ms.ordering(ms_or_simple_order)
         if spec.get('custom_perm') is not None:
             ms.order = ms.order[np.array(spec['custom_perm'], dtype=np.intp)]
@@ -85,6 +116,8 @@ def run(spec):
         return {'build_error': type(e).__name__ + ': ' + str(e)[:200], 'tb': traceback.format_exc()[-600:]}
     q = spec['queries']
     out = {}
+    if spec.get('transform'):
+        out['base'] = dict(BASE_INFO)
     # (HelicalLattice accepts translation invariant strengths only: strength variant not exercised)
     helical = bool(spec.get('wrap')) and spec['wrap']['kind'] == 'helical'
     out['Ls'] = [int(x) for x in lat.Ls]
@@ -201,8 +234,31 @@ def run(spec):
         g['basis'] = np.asarray(lat.basis, dtype=float).tolist()
         g['uc_pos'] = np.asarray(lat.unit_cell_positions, dtype=float).tolist()
         g['pos_order'] = np.asarray(lat.position(lat.order), dtype=float).tolist()
-        g['dist'] = {k: [float(lat.distance(u1, u2, np.asarray(dx))) for (u1, u2, dx) in v] for k, v in lat.pairs.items()}
+        def dist_or_none(u1, u2, dx):
+            try:
+                return float(lat.distance(u1, u2, np.asarray(dx)))
+            except Exception:
+                return None
+        g['dist'] = {k: [dist_or_none(u1, u2, dx) for (u1, u2, dx) in v] for k, v in lat.pairs.items()}
         g['count'] = {k: [int(lat.count_neighbors(u, k)) for u in range(len(lat.unit_cell))] for k in lat.pairs}
+        g['uc_dims'] = [None if st is None else int(st.dim) for st in lat.unit_cell]
+        if spec.get('wrap') and spec['wrap']['kind'] == 'multi':
+            # the simple lattice, built separately
+            sl = build_base(spec, simple_only=True)
+            g['simple'] = {'pairs': {k: [[int(u1), int(u2), tolist(dx)] for (u1, u2, dx) in v] for k, v in sl.pairs.items()},
+                           'uc_pos': np.asarray(sl.unit_cell_positions, dtype=float).tolist()}
+        # the couplings of every predefined pair
+        pc = {}
+        for k, v in lat.pairs.items():
+            rows = []
+            for (u1, u2, dx) in v:
+                try:
+                    i, j, _, _ = lat.possible_couplings(u1, u2, np.asarray(dx, dtype=np.intp))
+                    rows.append({'i': tolist(i), 'j': tolist(j)})
+                except Exception as e:
+                    rows.append({'error': type(e).__name__ + ': ' + str(e)[:200]})
+            pc[k] = rows
+        g['pair_couplings'] = pc
         return g
     if q.get('geometry'):
         guarded('geometry', geom)
